@@ -87,6 +87,16 @@ def balance_of(facts, body):
                 if rvn[0] == "const":
                     return s.with_user(put({} if rvn[1] == 0 else {1: rvn[1]}, md, True, mr))
                 d = lin_sub(lin(rv), {self_used: 1})
+                # `let cost = self.key_costs.remove(k)?; self.used -= cost`: the payload of the removal is the removed value
+                d2_ = {}
+                for t_, c_ in d.items():
+                    if isinstance(t_, tuple):
+                        for sub_ in list(subexprs(t_)):
+                            if sub_[0] == "field" and sub_[2] in ("0", 0) and sub_[1][0] == "downcast" and sub_[1][2] == "Some" and is_call(sub_[1][1], "HashMap::remove") \
+                                    and norm(sub_[1][1][2][0]) == self_map:
+                                t_ = subst(t_, {sub_: ("removed", sub_[1][1])})
+                    d2_[t_] = d2_.get(t_, 0) + c_
+                d = d2_
                 if any(isinstance(t, tuple) and mentions(t, self_used) for t in d):
                     raise Unmodelled("used := %s is not used + delta" % show(rv))
                 return s.with_user(put(lin_add(ud, d), md, ur, mr))
@@ -157,6 +167,11 @@ def balance_of(facts, body):
             # effects may differ by a multiple of (x - y)
             eqs = []
             for a, v in expand_state(body, s, hist=True).lits:
+                if a[0] == "variant" and is_call(a[1], "HashMap::remove") and ((v and a[2] == "None") or (v is False and a[2] == "Some")):
+                    # the removal found nothing on this path: nothing left the map
+                    sym_ = ("removed", norm(a[1]))
+                    ud = {t_: c_ for t_, c_ in ud.items() if t_ != sym_}
+                    md = {t_: c_ for t_, c_ in md.items() if t_ != sym_}
                 if v and a[0] == "variant" and a[2] == "Equal" and is_call(a[1], "cmp"):
                     x, y = a[1][2][0], a[1][2][1]
                     eqs.append(lin_sub(lin(x), lin(y)))
